@@ -587,7 +587,9 @@ class Zeroconf(QuietLogger):
 
             self.async_send(self.generate_service_query(info))
             i += 1
-            next_time += _CHECK_TIME
+            # Count the probe interval from when this probe went out, a probe
+            # that was sent late would otherwise be followed at once by the next
+            next_time = now + _CHECK_TIME
 
     def add_listener(
         self, listener: RecordUpdateListener, question: Optional[Union[DNSQuestion, List[DNSQuestion]]]
